@@ -137,6 +137,99 @@ def _symbolic_format(obj, format_spec=""):
 _chcore._PATCH_REGISTRATIONS[format] = _symbolic_format
 
 
+# --- symbolic model of str.encode("unicode_escape") for one character ------------------------------------------------
+# (the regex renderer spells explicitly encoded characters with this codec; CrossHair realizes for unknown codecs)
+from crosshair.libimpl.builtinslib import AnySymbolicStr as _AnySymbolicStr  # noqa: E402
+
+
+class _EscapedAscii:
+    """What ``s.encode('unicode_escape')`` returns for a symbolic one-character ``s``: only ``decode('ascii')`` is offered."""
+
+    def __init__(self, text):
+        self._text = text
+
+    def decode(self, encoding="utf-8", errors="strict"):
+        assert encoding in ("ascii", "utf-8", "latin-1")
+        return self._text
+
+
+def unicode_escape_of_char(c):
+    """The unicode_escape spelling of the (possibly symbolic) code point ``c`` as a str (division-free hex digits)."""
+    if c == 92:
+        return "\\\\"
+    if c == 9:
+        return "\\t"
+    if c == 10:
+        return "\\n"
+    if c == 13:
+        return "\\r"
+    if 32 <= c <= 126:
+        return chr(c)
+    if c < 0x100:
+        return "\\x" + format(c, "02x")
+    if c < 0x10000:
+        return "\\u" + format(c, "04x")
+    return "\\U" + format(c, "08x")
+
+
+_orig_symbolic_encode = _AnySymbolicStr.encode
+
+
+def _symbolic_encode(self, encoding="utf-8", errors="strict"):
+    if encoding == "unicode_escape" and len(self) == 1:
+        return _EscapedAscii(unicode_escape_of_char(ord(self)))
+    return _orig_symbolic_encode(self, encoding, errors)
+
+
+for _cls in [_AnySymbolicStr] + [c for c in _AnySymbolicStr.__subclasses__()]:
+    if "encode" in _cls.__dict__:
+        _cls.encode = _symbolic_encode  # type: ignore
+
+
+# --- symbolic int(text, 16) -------------------------------------------------------------------------------------------
+# CrossHair realizes the string (one path per VALUE); hexadecimal escapes of up to 8 digits are read fork-free instead.
+_orig_int_patch = _chcore._PATCH_REGISTRATIONS[int]
+
+
+def _symbolic_int(*args, **kwargs):
+    from vf.sym import codepoints, constrain, fresh_int, ite
+    with NoTracing():
+        handle = (len(args) == 2 and not kwargs and isinstance(args[0], _AnySymbolicStr) and type(args[1]) is int
+                  and args[1] == 16)
+    if not handle:
+        return _fallback_int(*args, **kwargs)
+    cps = codepoints(args[0])
+    if not (1 <= len(cps) <= 8):
+        return _fallback_int(*args, **kwargs)
+    total = 0
+    valid = True
+    for c in cps:
+        is_digit = (c >= 48) & (c <= 57)
+        is_upper = (c >= 65) & (c <= 70)
+        is_lower = (c >= 97) & (c <= 102)
+        valid = valid & (is_digit | is_upper | is_lower)
+        d = ite(is_digit, c - 48, ite(is_upper, c - 55, c - 87))
+        total = total * 16 + d
+    if not valid:  # one fork: well-formed or not (signs, blanks and underscores are left to the original)
+        return _fallback_int(*args, **kwargs)
+    return total
+
+
+def _fallback_int(*args, **kwargs):
+    """CrossHair's own patch for symbolic ints/strings; plain ``int`` (untraced, else it would be intercepted again) otherwise."""
+    with NoTracing():
+        symbolic_first = bool(args) and isinstance(args[0], (_SymbolicInt, _AnySymbolicStr))
+    if symbolic_first:
+        return _orig_int_patch(*args, **kwargs)
+    with NoTracing():
+        real_args = [deep_realize(a) for a in args]
+        real_kwargs = {k: deep_realize(v) for k, v in kwargs.items()}
+        return int(*real_args, **real_kwargs)
+
+
+_chcore._PATCH_REGISTRATIONS[int] = _symbolic_int
+
+
 def selfcheck_format() -> None:
     """The patch must agree with the builtin on boundary values (run at worker start)."""
     for spec in ("x", "02x", "04x", "08x", "2x", "03o", "o"):
@@ -151,6 +244,8 @@ def selfcheck_format() -> None:
             if len(out) < width:
                 out = ("0" if m.group(1) else " ") * (width - len(out)) + out
             assert out == format(v, spec), (v, spec, out, format(v, spec))
+    for v in (0, 8, 9, 10, 13, 31, 32, 34, 39, 91, 92, 93, 126, 127, 128, 254, 255, 256, 0xD7FF, 0xE000, 0xFFFF, 0x10000, 0x10FFFF):
+        assert unicode_escape_of_char(v) == chr(v).encode("unicode_escape").decode("ascii"), v
 
 
 selfcheck_format()
